@@ -101,8 +101,9 @@ def c_result(f) -> str:
 class ExprGen:
     """Grammar-directed random expressions. `rich` adds value marks, interventions, populations and Q factors."""
 
-    def __init__(self, rng: random.Random, names=None, rich=True, wellscoped=False):
+    def __init__(self, rng: random.Random, names=None, rich=True, wellscoped=False, public=False):
         self.rng = rng
+        self.public = public
         self.names = names or ALPHA[:6]
         self.rich = rich
         self.wellscoped = wellscoped
@@ -111,6 +112,8 @@ class ExprGen:
         from y0.dsl import Variable
         r = self.rng.random()
         if self.rich and allow_mark and r < 0.12:
+            if self.public:
+                return -Variable(name) if self.rng.random() < 0.5 else +Variable(name)
             return Variable(name, star=self.rng.random() < 0.5)
         return Variable(name)
 
@@ -147,6 +150,15 @@ class ExprGen:
         return PopulationProbability(population=builder.population, distribution=p.distribution)
 
     def expr(self, depth: int, bound=frozenset()):
+        """A random expression; building may hit ZeroDivisionError (a Zero reaching a denominator): retry."""
+        for _ in range(50):
+            try:
+                return self._expr(depth, bound)
+            except (ZeroDivisionError, ValueError, TypeError):
+                continue
+        return self.atom()
+
+    def _expr(self, depth: int, bound=frozenset()):
         from y0.dsl import Fraction, One, Product, Sum, Variable, Zero
         rng = self.rng
         if depth <= 0 or rng.random() < 0.25:
@@ -160,7 +172,7 @@ class ExprGen:
         if r < 0.35:
             k = rng.randint(2, 3)
             parts = [self.expr(depth - 1, bound) for _ in range(k)]
-            if rng.random() < 0.5:
+            if rng.random() < 0.5 and not self.public:
                 try:
                     return Product(tuple(parts))
                 except Exception:
@@ -175,14 +187,14 @@ class ExprGen:
             if not avail:
                 return inner
             rs = rng.sample(avail, rng.randint(1, min(3, len(avail))))
-            if rng.random() < 0.5:
+            if rng.random() < 0.5 and not self.public:
                 try:
                     return Sum(inner, frozenset(Variable(n) for n in rs))
                 except Exception:
                     pass
-            return Sum.safe(inner, [Variable(n) for n in rs], simplify=rng.random() < 0.3)
+            return Sum.safe(inner, [Variable(n) for n in rs], simplify=(rng.random() < 0.3 and not self.public))
         n, d = self.expr(depth - 1, bound), self.expr(depth - 1, bound)
-        if rng.random() < 0.5:
+        if rng.random() < 0.5 and not self.public:
             try:
                 return Fraction(n, d)
             except ZeroDivisionError:
